@@ -14,6 +14,8 @@
 -/
 import BlocV.Proofs.Lemmas.Parse
 import BlocV.Proofs.Lemmas.ParseStmt
+import BlocV.Proofs.Lemmas.ParseBlock
+import BlocV.Proofs.Lemmas.ParseSize
 
 namespace BlocV.C12
 open BlocV BlocV.Parse BlocV.Unparse BlocV.Roundtrip BlocV.C12L
@@ -397,6 +399,107 @@ theorem unparse_fixpoint_program_partial (p : List PStmt) (hwf : wfFlatB p = tru
 
 example : (pProgram 2000 (toksProgram exProg)).toOption.map unparseProgram = some (unparseProgram exProg) :=
   unparse_fixpoint_program_partial exProg (by decide +kernel) 2000 (by decide +kernel)
+
+/-! ### Statements of EVERY kind, clauses, programs (round C12-deepen 2): the parser half on tokens, no `flat` restriction -/
+
+/-- **Round trip of statements, every kind.** For every well-formed statement `s` (`wfS`: names are parser names, type
+keywords are type keywords, expressions `wf`, print lists `itemsSep`, clauses of if / elsif / else / while / for / forall /
+when non-empty, function declarations at top level only, parameters `paramOk`) — nop, break, continue, trace, return,
+assignments and typed declarations with chains, print, put, do, raise, **if / elsif… / else, while, for (with and without
+step, asc / desc), forall (asc / desc), begin / exception / when…, function declarations with typed parameters and
+exception clauses**, nested to any depth: the tokens of the saved statement followed by the separator read back as
+`normS s`, whatever follows. By mutual induction over statements, clauses (`block_roundtrip`), rule lists and catch lists. -/
+theorem stmt_roundtrip (s : PStmt) (nested : Bool) (hwf : wfS nested s = true) (rest : List Tok) (f : Nat)
+    (hf : 16 * ssize s + 30 ≤ f) :
+    pStmt f nested (toksStmt s ++ ch 59 :: rest) = .ok (some (normS s), rest) :=
+  stmt_rt s nested hwf rest f hf
+
+/-- **Clauses** (`parse_clause` / `parse_catch` / the body of BEGIN): the statements of a clause, followed by a word `e`
+that ends it (`end`, `elsif`, `else`, `exception`, `when` — whichever set `enders` the construct uses), read back as
+`normB b` and leave `e`; `ne` = the construct requires at least one statement. -/
+theorem block_roundtrip (b : List PStmt) (hwf : wfB b = true) (enders : List Bytes) (ne : Bool) (e : Tok) (rest : List Tok)
+    (f : Nat) (hc : e.code = cKW) (he : enders.contains e.text = true)
+    (hsub : ∀ x, enders.contains x = true → enderKws.contains x = true) (hne : ne = true → b ≠ [])
+    (hf : 16 * ssizeB b + 30 ≤ f) :
+    pBlock f enders ne (toksBlock b ++ e :: rest) = .ok (normB b, e :: rest) :=
+  block_rt b hwf enders ne e rest f hc he hsub hne hf
+
+/-- **Round trip of programs (tokens), every statement kind**: `Parser::parse` on the tokens of a saved program gives
+`normP p`. (What is still missing for `parseText (unparseProgram p) = ok (normP p)` is only the byte → token step.) -/
+theorem program_roundtrip (p : List PStmt) (hwf : wfP p = true) (f : Nat) (hf : 16 * ssizeB p + 31 ≤ f) :
+    pProgram f (toksProgram p) = .ok (normP p) :=
+  program_rt p hwf f hf
+
+/-- **unparse ∘ parse ∘ unparse = unparse on tokens, all programs**: the program read back from the tokens of the saved
+text is saved as the same bytes. -/
+theorem unparse_fixpoint_program_tokens (p : List PStmt) (hwf : wfP p = true) (f : Nat) (hf : 16 * ssizeB p + 31 ≤ f) :
+    (pProgram f (toksProgram p)).toOption.map unparseProgram = some (unparseProgram p) := by
+  rw [program_roundtrip p hwf f hf]
+  simp [Except.toOption, (unparse_fixpoint_program p).1]
+
+/-- …and is the same interpreter program -/
+theorem behaviour_preserved_program_tokens (p : List PStmt) (hwf : wfP p = true) (f : Nat) (hf : 16 * ssizeB p + 31 ≤ f) :
+    ∃ q, pProgram f (toksProgram p) = .ok q ∧ toProgram q = toProgram p ∧ unparseProgram q = unparseProgram p :=
+  ⟨normP p, program_roundtrip p hwf f hf, behaviour_preserved_program p, (unparse_fixpoint_program p).1⟩
+
+/-- `for I in 1 to -N power 2 step 2 desc loop if … elsif … else … end if; end loop; forall E in T asc loop … end loop;
+begin … exception when A then … when B then … end; function F(X:integer,Y) return integer is begin … exception when Z then … end;` -/
+def exAll : List PStmt :=
+  [.forS (bytesOf "I") (.int 1) exDoNeg (some (.int 2)) .desc
+     [.ifS [(.var (bytesOf "A"), [.print [.var (bytesOf "I")]]), (.var (bytesOf "B"), [.brk, .cont])] (some [.nop])],
+   .forall (bytesOf "E") (.var (bytesOf "T")) .asc [.doS exCalls],
+   .whileS (.kw (bytesOf "true")) [.ifS [(.var (bytesOf "A"), [.raise (bytesOf "X")])] none],
+   .begin [exChain] [(bytesOf "A", [.ret none]), (bytesOf "B", [.trace (.kw (bytesOf "false"))])],
+   .func (bytesOf "F") [(bytesOf "X", bytesOf "integer"), (bytesOf "Y", [])] (bytesOf "integer")
+     [.ret (some exDoNeg)] [(bytesOf "Z", [.ret (some (.int 0))])]]
+example : wfP exAll = true := by decide +kernel
+example : pProgram 5000 (toksProgram exAll) = .ok (normP exAll) :=
+  program_roundtrip exAll (by decide +kernel) 5000 (by decide +kernel)
+/-- on this example the saved bytes scan to `toksProgram` (C13 lexer model, by evaluation) -/
+example : tokensOf (unparseProgram exAll) = toksProgram exAll := by decide +kernel
+
+/-! ### On BYTES (round C12-deepen 2): `parseText ∘ unparseProgram`, with the scanning step as ONE explicit hypothesis
+
+  `parseText text = pProgram (parseFuel ts) ts` with `ts = tokensOf text` (the library's line reader + chunked scanner,
+  C13). The byte → token step `tokensOf (unparseProgram p) = toksProgram p` is NOT proved in general (plan in
+  notes/NOTES-C12.md); it is a decidable statement about `p`, evaluated by the driver on every case (`ptoks`), and enters
+  here as hypothesis `hscan`. It subsumes the three side conditions a proof of it needs (names are identifiers, the shape
+  of `numText d`, lines ≤ 1023 bytes). That the fuel `parseText` gives the parser suffices is proved (`parse_fuel_suffices`). -/
+
+/-- The fuel `parseText` hands to the parser (`parseFuel`, 64 per token) covers the bound of `program_roundtrip` for EVERY
+program: the fuel measure is at most three times the number of tokens (`C12L.ssizeB_le`, all statement and expression kinds). -/
+theorem parse_fuel_suffices (p : List PStmt) : 16 * ssizeB p + 31 ≤ parseFuel (toksProgram p) := parseFuel_ok p
+
+example : 16 * ssizeB exAll + 31 ≤ parseFuel (toksProgram exAll) := parse_fuel_suffices exAll
+
+/-- **`parseText (unparseProgram p) = ok (normP p)`** for every well-formed program of every statement kind whose saved
+bytes scan to its token list. -/
+theorem program_roundtrip_bytes (p : List PStmt) (hwf : wfP p = true)
+    (hscan : tokensOf (unparseProgram p) = toksProgram p) :
+    parseText (unparseProgram p) = .ok (normP p) := by
+  simp only [parseText, hscan]
+  exact program_roundtrip p hwf _ (parse_fuel_suffices p)
+
+/-- **unparse (parse (unparse p)) = unparse p on BYTES**, and the program read back is the same interpreter program. -/
+theorem unparse_fixpoint_program_bytes (p : List PStmt) (hwf : wfP p = true)
+    (hscan : tokensOf (unparseProgram p) = toksProgram p) :
+    ∃ q, parseText (unparseProgram p) = .ok q ∧ unparseProgram q = unparseProgram p ∧ toProgram q = toProgram p :=
+  ⟨normP p, program_roundtrip_bytes p hwf hscan, (unparse_fixpoint_program p).1, behaviour_preserved_program p⟩
+
+/-- expressions on bytes: the text of `e` followed by `;`, scanned and parsed -/
+theorem expr_roundtrip_bytes (e : PExpr) (hwf : wf e = true)
+    (hscan : tokensOf (unparseExpr e ++ [59]) = toksExpr e ++ [ch 59]) (f : Nat) (hf : 16 * esize e + 13 ≤ f) :
+    pExpr f (tokensOf (unparseExpr e ++ [59])) = .ok (norm e, [ch 59]) := by
+  rw [hscan]
+  exact expr_roundtrip e hwf (ch 59) [] semi_stops (fun _ => semi_not_lp) f hf
+
+example : parseText (unparseProgram exAll) = .ok (normP exAll) :=
+  program_roundtrip_bytes exAll (by decide +kernel) (by decide +kernel)
+example : pExpr 1000 (tokensOf (unparseExpr exCalls ++ [59])) = .ok (norm exCalls, [ch 59]) :=
+  expr_roundtrip_bytes exCalls (by decide +kernel) (by decide +kernel) 1000 (by decide +kernel)
+/-- the model parser no longer runs out of fuel on deep parentheses (it did with fuel `2 * tokens + 50`) -/
+example : (parseText (bytesOf "a = ((((((((((((1))))))))))));")).toOption.map unparseProgram = some (bytesOf "A = 1;\n") := by
+  decide +kernel
 
 /-! ### Where the full statement fails (negations, by evaluation) -/
 
